@@ -39,6 +39,7 @@ Definition adv {A} (r : list Z) (k : list Z -> res A) : res A :=
 (* error messages of the code, by number (the driver prints the text) *)
 Definition E_eof := 1%nat.          (* Unexpected end of file *)
 Definition E_hexdigit := 2%nat.     (* Expected hexadecimal digit *)
+Definition E_hexnumber := 3%nat.    (* Expected hexadecimal number *)
 Definition E_surrogate := 4%nat.    (* Expected UTF-8 surrogate pair *)
 Definition E_char := 5%nat.         (* Expected character *)
 Definition E_quote := 7%nat.        (* Expected a double quote *)
@@ -80,15 +81,55 @@ Definition utf8_rev (ch : Z) (acc : list Z) : list Z :=
     Z.lor (Z.land (Z.shiftr ch 12) 63) 128 :: Z.lor (Z.shiftr ch 18) 240 :: acc
   else acc.
 
-(* four hex digits, each guarded by isHexDigit; k.scanf("%x") = reference hexadecimal value *)
-Fixpoint hexn (n : nat) (line : Z) (r : list Z) (w : Z) : res (Z * list Z) :=
+(* libc sscanf(k, "%x", &w): white space is skipped, an optional sign and an optional 0x / 0X prefix in front
+   of a digit are accepted, then the longest run of hexadecimal digits is the number (strtoul: negated when
+   signed, ULONG_MAX when it does not fit 64 bits; then stored into an unsigned int); without a digit
+   nothing is assigned and the call does not return 1 (None).  Tied to libc by op xscan of the check. *)
+Fixpoint scan_ws (k : list Z) : list Z :=
+  match k with
+  | c :: t => if is_space c then scan_ws t else k
+  | [] => []
+  end.
+Fixpoint hex_run (k : list Z) (a : Z) (seen : bool) : option Z :=
+  match k with
+  | c :: t => if is_hex c then hex_run t (16 * a + hexval c) true else if seen then Some a else None
+  | [] => if seen then Some a else None
+  end.
+Definition scan_prefix (k : list Z) : list Z :=
+  match k with
+  | z :: x :: h :: t => if (z =? 48) && ((x =? 120) || (x =? 88)) && is_hex h then h :: t else k
+  | _ => k
+  end.
+Definition scanf_hex (k : list Z) : option Z :=
+  let k1 := scan_ws k in
+  let '(neg, k2) := match k1 with
+                    | c :: t => if c =? 45 then (true, t) else if c =? 43 then (false, t) else (false, k1)
+                    | [] => (false, k1)
+                    end in
+  match hex_run (scan_prefix k2) 0 false with
+  | Some v => Some (if 18446744073709551615 <? v then 4294967295 else (if neg then - v else v) mod 4294967296)
+  | None => None
+  end.
+
+(* `String k(4);` then four times: the byte at pos.pos is appended to k and stepped over if isHexDigit says
+   yes, otherwise "Expected hexadecimal digit" ([k] reversed) *)
+Fixpoint hexk (n : nat) (line : Z) (r : list Z) (k : list Z) : res (list Z * list Z) :=
   match n with
-  | O => Ok (w, r)
+  | O => Ok (frev k, r)
   | S m =>
     let c := peek r in
-    if is_hex c then adv r (fun r1 => hexn m line r1 (16 * w + hexval c))
+    if is_hex c then adv r (fun r1 => hexk m line r1 (c :: k))
     else SyntaxErr line r E_hexdigit
   end.
+
+(* ... then `if(k.scanf("%x", &w) != 1) return pos.pos -= 4, syntaxError(pos, "Expected hexadecimal number"), false;`
+   (Json.cpp:135-136 and 152-153; after four advances pos.pos - 4 is the cursor [r] the digits started at) *)
+Definition hex_quad (line : Z) (r : list Z) : res (Z * list Z) :=
+  bind (hexk 4 line r []) (fun '(k, r') =>
+    match scanf_hex k with
+    | Some w => Ok (w, r')
+    | None => SyntaxErr line r E_hexnumber
+    end).
 
 (* ---------- the string token: body after the opening quote ---------- *)
 Fixpoint str_loop (fuel : nat) (line : Z) (r : list Z) (acc : list Z) : res (Z * list Z * list Z) :=
@@ -112,14 +153,14 @@ Fixpoint str_loop (fuel : nat) (line : Z) (r : list Z) (acc : list Z) : res (Z *
         else if e =? 116 then adv r1 (fun r2 => str_loop f line r2 (9 :: acc))
         else if e =? 117 then
           adv r1 (fun r2 =>
-            bind (hexn 4 line r2 0) (fun '(w1, r3) =>
+            bind (hex_quad line r2) (fun '(w1, r3) =>
               if Z.land w1 64512 =? 55296 then
                 (* high surrogate: a second \uXXXX must follow *)
                 if negb (peek r3 =? 92) then SyntaxErr line r3 E_surrogate
                 else adv r3 (fun r4 =>
                   if negb (peek r4 =? 117) then SyntaxErr line r3 E_surrogate
                   else adv r4 (fun r5 =>
-                    bind (hexn 4 line r5 0) (fun '(w2, r6) =>
+                    bind (hex_quad line r5) (fun '(w2, r6) =>
                       if negb (Z.land w2 64512 =? 56320) then SyntaxErr line r3 E_surrogate  (* pos.pos -= 6 *)
                       else str_loop f line r6
                              (utf8_rev (Z.lor (Z.land w2 1023) (Z.shiftl (Z.land w1 1023) 10) + 65536) acc))))
@@ -381,6 +422,13 @@ Fixpoint emit (v : value) (ind : list Z) : list Z :=
     match m with
     | [] => [123; 125]
     | _ => [123; 10] ++ emit_members (fun x => emit x (ind ++ [9])) (ind ++ [9]) m ++ [10] ++ ind ++ [125]
+    end
+  | JUInt z => print_dec z            (* data.toString() = String::fromUInt:   printf("%u")   *)
+  | JUInt64 z => print_dec z          (* data.toString() = String::fromUInt64: printf("%llu") *)
+  | JArray l =>                       (* case Variant::arrayType (Json.cpp:476-497): the text of the list case *)
+    match l with
+    | [] => [91; 93]
+    | _ => [91; 10] ++ emit_items (fun x => emit x (ind ++ [9])) (ind ++ [9]) l ++ [10] ++ ind ++ [93]
     end
   end.
 
